@@ -86,6 +86,18 @@ def queries(tier):
     for nf in (1, 2, 3):
         qs.append(Query("ws-reassemble-%dframes" % nf, "c16/wsframe.c", tus=["core/list.c"], env=WENV + ["env_msg.c"], defs={"FINISH": 1, "NF": nf, "SERVER": 1},
                         unwind=30, timeout=300, params={"kernel": "ws_read_finish_msg", "fragments": nf}))
+    for npk in (1, 2, 3):
+        for comp in (0, 1):
+            qs.append(Query("ws-reassemble-late-receiver-%dparked-%s" % (npk, "complete" if comp else "incomplete"), "c16/wsframe.c", tus=["core/list.c"],
+                            env=WENV + ["env_msg.c"], defs={"LATERECV": 1, "NPARKED": npk, "COMPLETE": comp, "SERVER": 1}, unwind=30, timeout=300,
+                            group="c16/wsframe.c#laterecv", params={"case": "receiver arrives after fragments were parked", "parked": npk, "message_complete": bool(comp)}))
+    for server in (0, 1):
+        for npk in (1, 2):
+            for lclass in (0, 1):
+                qs.append(Query("ws-header-%s-parked%d-lclass%d" % ("server" if server else "client", npk, lclass), "c16/wsframe.c", tus=["core/list.c"], env=WENV,
+                                defs={"SERVER": server, "LCLASS": lclass, "MASKED": server, "OP": 0, "NPARK": npk, "PLEN": 3}, unwind=30, timeout=300,
+                                group="c16/wsframe.c#parked", params={"stage": 2, "role": "server" if server else "client", "parked_fragments": npk,
+                                                                      "parked_payload": 3, "length_form": lclass, "opcode": "CONT"}))
     qs.append(Query("ws-preptx-server-symbolic-length", "c16/wsframe.c", tus=["core/list.c"], env=WENV, defs={"PREPTX": 1}, unwind=12, timeout=600, mem_gb=8,
                     group="~c16/wsframe.c#preptx", params={"kernel": "ws_frame_prep_tx", "role": "server", "payload_length": "symbolic 0..2^63-1", "fragsize": "symbolic"}))
     for n in ((0, 1, 125, 126, 127) if tier == "quick" else (0, 1, 2, 3, 4, 5, 8, 124, 125, 126, 127, 128, 130)):
